@@ -4,7 +4,7 @@
 import ast
 import operator as _op
 
-from .absint import (V, Const, Sym, Err, TypeV, Atom, Top, Builtin, ModuleV, Func, ClassV, ListV, DictV, Obj, Bound,
+from .absint import (RegexV, MatchV, V, Const, Sym, Err, TypeV, Atom, Top, Builtin, ModuleV, Func, ClassV, ListV, DictV, Obj, Bound,
                      GenV, Exc, Splice, Raised, Unmodelled, TAG_TYPES, TAG_EXACT, NUMERIC, EXC_BASES, k)
 
 BUILTIN_NAMES = set(['isinstance', 'len', 'abs', 'all', 'any', 'sum', 'min', 'max', 'sorted', 'range', 'zip', 'enumerate',
@@ -761,6 +761,10 @@ def call_builtin(interp, name, args, kwargs):
         if a.tag in NUMERIC or a.tag is None:
             return Atom('round', args, 'int' if len(args) == 1 else a.tag)
         raise Raised(Exc('TypeError'))
+    if name == 'ord' and isinstance(args[0], Const) and isinstance(args[0].value, str) and len(args[0].value) == 1:
+        return Const(ord(args[0].value))
+    if name == 'chr' and isinstance(args[0], Const) and isinstance(args[0].value, int) and 0 <= args[0].value < 0x110000:
+        return Const(chr(args[0].value))
     if name in ('ord',):
         if args[0].tag in ('str', None):
             return Atom('ord', args, 'int')
@@ -807,6 +811,14 @@ def call_builtin(interp, name, args, kwargs):
                 raise Raised(Exc('TypeError', 'must be real number, not %s' % a.tag))
         if fn in ('pi', 'e', 'inf', 'nan'):
             return Atom(fn, [], 'float')
+        if args and all(isinstance(a, Const) and isinstance(a.value, (int, float)) for a in args):
+            import math as _math
+            try:
+                return Const(getattr(_math, fn)(*[a.value for a in args]))     # constant folding of a pure stdlib function
+            except (ValueError, OverflowError):
+                raise Raised(Exc('ValueError', 'math domain error'))
+            except (TypeError, AttributeError):
+                pass
         if getattr(interp, 'math_domain_forks', False):
             if interp.decide('math.%s(%s) in domain' % (fn, ', '.join(repr(a) for a in args)), [True, False]) is False:
                 raise Raised(Exc('ValueError', 'math domain error'))
@@ -822,6 +834,16 @@ def call_builtin(interp, name, args, kwargs):
             if a.tag is not None and a.tag != 'str':
                 raise Raised(Exc('TypeError', 'expected str'))
         return Atom('fnmatch', args, 'bool')
+    if name == 're.compile':
+        if isinstance(args[0], Const) and isinstance(args[0].value, str):
+            fl = args[1].value if len(args) > 1 and isinstance(args[1], Const) else 0
+            return RegexV(args[0].value, fl if isinstance(fl, int) else 0)
+        return Top('regex', ignorance=False)
+    if name in ('re.match', 're.search', 're.fullmatch') and isinstance(args[0], Const):
+        return regex_method(interp, RegexV(args[0].value), short, args[1:], kwargs)
+    if name in ('re.UNICODE', 're.IGNORECASE', 're.I', 're.U', 're.MULTILINE', 're.DOTALL'):
+        import re as _re
+        return Const(int(getattr(_re, short)))
     if name.startswith('re.'):
         return Top('re result', ignorance=False)
     if short in EXC_BASES:
@@ -927,6 +949,20 @@ def call_method(interp, base, attr, args, kwargs, text=''):
         raise Unmodelled('dict method %s' % attr)
     if isinstance(base, GenV):
         raise Unmodelled('generator method %s' % attr)
+    if isinstance(base, RegexV):
+        return regex_method(interp, base, attr, args, kwargs)
+    if isinstance(base, MatchV):
+        if attr == 'groups':
+            return ListV(base.groups[1:], 'tuple')
+        if attr == 'group':
+            if not args:
+                return base.groups[0]
+            if isinstance(args[0], Const) and isinstance(args[0].value, int) and args[0].value < len(base.groups):
+                return base.groups[args[0].value]
+            return Atom('group', [base, args[0]], None)
+        if attr in ('start', 'end'):
+            return Atom(attr, [base], 'int')
+        raise Unmodelled('match method %s' % attr)
     tag = base.tag
     if tag == 'str':
         if isinstance(base, Const) and all(isinstance(a, Const) for a in args) and not kwargs and attr in STR_TO_STR | STR_TO_BOOL | STR_TO_INT | set(['split', 'join']):
@@ -998,6 +1034,29 @@ def call_method(interp, base, attr, args, kwargs, text=''):
     if isinstance(base, Func):
         raise Raised(Exc('AttributeError', attr))
     raise Unmodelled('method %s on %r' % (attr, base))
+
+
+def regex_method(interp, rv, attr, args, kwargs):
+    import re as _re
+    if attr not in ('match', 'search', 'fullmatch'):
+        return Top('regex method %s' % attr, ignorance=False)
+    subj = args[0]
+    try:
+        cre = _re.compile(rv.pattern, rv.flags)
+    except _re.error:
+        raise Raised(Exc('ValueError', 'bad regex'))
+    if isinstance(subj, Const) and isinstance(subj.value, str):
+        # constant folding of a pure stdlib function on a constant subject
+        mm = getattr(cre, attr)(subj.value)
+        if mm is None:
+            return Const(None)
+        return MatchV(rv, subj, [Const(mm.group(0))] + [Const(g) for g in mm.groups()])
+    if subj.tag is not None and subj.tag != 'str':
+        raise Raised(Exc('TypeError', 'expected string or bytes-like object'))
+    if interp.decide('%s %s %r' % (rv.pattern, attr, subj), [True, False], None):
+        n = cre.groups
+        return MatchV(rv, subj, [Atom('group', [subj, Const(i)], 'str') for i in range(n + 1)])
+    return Const(None)
 
 
 def list_method(interp, base, attr, args, kwargs):
